@@ -56,6 +56,30 @@ func (c16Suite) Gen(rng *Rng, tier string, w *bufio.Writer, stats *Stats) {
 			rec(nil)
 		}
 	}
+	// Stats().Combined(...) readings interleaved with ordinary use: all sequences of length <= 4 over a small alphabet with `comb`
+	combAlphabet := []string{"put 1 1", "put 2 2", "get 1", "del 1", "comb"}
+	for _, kind := range []string{"sieve", "nemap"} {
+		for _, capacity := range []int{1, 2, 4} {
+			var rec func(prefix []string)
+			rec = func(prefix []string) {
+				if len(prefix) == 4 {
+					hasComb := false
+					for _, o := range prefix {
+						hasComb = hasComb || o == "comb"
+					}
+					if hasComb {
+						emitCase(kind, capacity, prefix)
+						stats.Inc("comb_cases")
+					}
+					return
+				}
+				for _, a := range combAlphabet {
+					rec(append(append([]string{}, prefix...), a))
+				}
+			}
+			rec(nil)
+		}
+	}
 	// random structured cases
 	n := 300
 	if tier == "thorough" {
@@ -75,7 +99,9 @@ func (c16Suite) Gen(rng *Rng, tier string, w *bufio.Writer, stats *Stats) {
 		ops := make([]string, 0, length)
 		for j := 0; j < length; j++ {
 			k := rng.Intn(nkeys)
-			switch x := rng.Intn(10); {
+			switch x := rng.Intn(11); {
+			case x == 10:
+				ops = append(ops, "comb")
 			case x < 5:
 				ops = append(ops, fmt.Sprintf("put %d %d", k, rng.Intn(1000)))
 			case x < 8:
@@ -92,6 +118,7 @@ func (c16Suite) Gen(rng *Rng, tier string, w *bufio.Writer, stats *Stats) {
 type c16Runner struct {
 	stats *Stats
 	c     cache.Cache[int, int]
+	peer  cache.Cache[int, int] // fixed second cache whose statistics are combined with c's (op comb)
 	kind  string
 	// branch detection from successive dumps
 	lastHand string
@@ -115,6 +142,12 @@ func (r *c16Runner) Step(t []string, raw string) string {
 			return "bad-op"
 		}
 		r.kind = t[1]
+		// peer: 2 entries, 1 hit, 1 miss, capacity 4
+		r.peer = cache.NewNonExpiringMapCache[int, int](4)
+		r.peer.Put(100, 1)
+		r.peer.Put(101, 2)
+		r.peer.Get(100)
+		r.peer.Get(999)
 		return "ok"
 	case r.c == nil:
 		return "bad-op"
@@ -157,6 +190,10 @@ func (r *c16Runner) Step(t []string, raw string) string {
 		}
 		r.c.Delete(k)
 		return "ok"
+	case len(t) == 1 && t[0] == "comb":
+		s := r.c.Stats().Combined(r.peer.Stats())
+		r.stats.Inc("branch.stats_combined")
+		return fmt.Sprintf("comb size=%d hits=%d misses=%d cap=%d", s.Size(), s.Hits(), s.Misses(), s.Capacity)
 	case len(t) == 1 && t[0] == "stats":
 		s := r.c.Stats()
 		capacity := s.Capacity
